@@ -29,6 +29,88 @@ def scenario(rng, kind, idx):
     return g
 
 
+def cheat_scenarios(viol, stats, samples):
+    """The borrowed-token ("cheat") path: a top-level `redo all` with the log viewer under an inherited jobserver
+    owned by the harness.  The job the viewer follows gives up its token while it waits for a target locked by a
+    sibling, finds no token free when it wakes up, borrows one, and (1) exits still holding it / (2) has to give it
+    up again for a second locked target.  Afterwards the pipe must hold exactly the tokens it held before."""
+    scen = [
+        ("cheater exits with the borrowed token", 1,
+         {"all": "redo-ifchange a b c d\n", "a": "sleep 0.3\nredo-ifchange s\necho a\n", "b": "redo-ifchange s\nsleep 1.6\necho b\n",
+          "s": "sleep 0.9\necho s\n", "c": "sleep 2.4\necho c\n", "d": "sleep 0.2\necho d\n"}),
+        ("cheater releases for a second locked target", 2,
+         {"all": "redo-ifchange a b c d\n", "a": "sleep 0.3\nredo-ifchange s1 s2\necho a\n", "b": "redo-ifchange s1\nsleep 1.6\necho b\n",
+          "c": "redo-ifchange s2\nsleep 1.2\necho c\n", "s1": "sleep 0.7\necho s1\n", "s2": "sleep 1.3\necho s2\n", "d": "sleep 2.0\necho d\n"}),
+    ]
+    spam = 'i=0\nwhile [ $i -lt 3000 ]; do echo "................................................................" >&2; i=$((i + 1)); done\n'
+    scen[1][2]["a"] = spam + scen[1][2]["a"]
+    for name, k, files in scen:
+        pr = Project()
+        ext = sched.ExtJobserver(k)
+        try:
+            for t, body in files.items():
+                pr.write(t + ".do", body)
+            if k == 1:
+                r = sched.run_cmds(pr, [["redo", "all"]], env=ext.env(), timeout=60, pass_fds=ext.fds())[0]
+            else:
+                # keep the log viewer on `a`: nobody reads redo's output until everything is built, and a.do first
+                # writes ~190 KB to stderr, so redo-log blocks in write() while it follows a (holding a's log lock)
+                import subprocess, time as _t
+                from proj import clean_env
+                trace, work = pr.path(".verif-trace"), pr.path(".verif-work")
+                e = clean_env(dict(REDO_VERIF_TRACE=trace, VERIF_WORK=work))
+                e.update(ext.env())
+                rfd, wfd = os.pipe()
+                t0 = _t.time()
+                pp = subprocess.Popen(["redo", "all"], cwd=pr.root, env=e, stdout=wfd, stderr=wfd, stdin=subprocess.DEVNULL, pass_fds=ext.fds(), start_new_session=True)
+                os.close(wfd)
+                while _t.time() - t0 < 40 and pp.poll() is None and not all(os.path.exists(pr.path(x)) for x in "abcd"):
+                    _t.sleep(0.1)
+                os.set_blocking(rfd, False)
+                out = b""
+                while pp.poll() is None and _t.time() - t0 < 60:
+                    try:
+                        out += os.read(rfd, 1 << 16)
+                    except BlockingIOError:
+                        _t.sleep(0.02)
+                timed = pp.poll() is None
+                if timed:
+                    import signal
+                    os.killpg(pp.pid, signal.SIGKILL)
+                pp.wait()
+                os.close(rfd)
+                r = sched.Run(pp.returncode if not timed else -999, "", out.decode("utf-8", "replace")[-3000:], sched.parse_trace(trace), sched.parse_work(work), _t.time() - t0, timed)
+            stats["runs"] += 1
+            stats["inherited"] += 1
+            stats["with_log"] += 1
+            ncheat = sum(1 for e in r.trace if e[2] == "js.cheat")
+            stats["cheats"] += ncheat
+            stats["cheat_scenarios"] = stats.get("cheat_scenarios", 0) + 1
+            left = ext.count()
+            desc = dict(name=name, tokens_in_pipe_before=k, files=files, rc=r.rc, cheats=ncheat)
+            problems = []
+            if r.timed_out or r.rc != 0:
+                problems.append("redo all exited %s" % r.rc)
+            if left != k:
+                problems.append("inherited jobserver pipe holds %d tokens after the run, %d before" % (left, k))
+            rep = sched.replay_tokens(r.trace, ext_pipe=k)
+            for grp, ans, nev in rep:
+                stats["events"] += nev
+                stats["groups"] += 1
+                if not ans.startswith("ok"):
+                    problems.append("token trace rejected by the model: " + ans)
+            if problems:
+                p = write_replay("C08", "cheat-%d" % k, dict(kind="impl-monitor+trace", scenario=desc, problems=problems, stderr=r.err[-1500:],
+                                                           events=sched.token_groups(r.trace)))
+                viol.append(Violation("C08", p, "%s: %s" % (name, "; ".join(problems))))
+                return
+            if ncheat and len(samples) < 3:
+                samples.append(dict(scenario=desc, answer=rep[0][1] if rep else None))
+        finally:
+            ext.close()
+            pr.destroy()
+
+
 def run(ctx):
     rng = random.Random(ctx["seed"] * 31 + 8)
     viol = ctx.setdefault("violations", [])
@@ -116,6 +198,8 @@ def run(ctx):
             if ext:
                 ext.close()
             pr.destroy()
+    if not viol:
+        cheat_scenarios(viol, stats, samples)
     return dict(evaluations=stats["events"], distinct_nontrivial=stats["runs"],
-                rule="seeded random build graphs (3-9 targets; chains, fans, diamonds, layers; failing, checksummed, always targets) built at -j1..4 with own or inherited (MAKEFLAGS) jobserver, with and without log capture, first build and rebuild; every primitive token event of every process is replayed by the Lean acceptor; distinct = runs",
+                rule="two directed scenarios for the borrowed-token path (followed job waits for a locked target, wakes up with no token free, cheats; then exits with the loan / releases it again) under an inherited jobserver; seeded random build graphs (3-9 targets; chains, fans, diamonds, layers; failing, checksummed, always targets) built at -j1..4 with own or inherited (MAKEFLAGS) jobserver, with and without log capture, first build and rebuild; every primitive token event of every process is replayed by the Lean acceptor; distinct = runs",
                 samples=samples, traces_validated_against_impl=stats["groups"], disagreements_checked=stats["events"], distribution=stats, known_hit=known_hit)
